@@ -506,7 +506,23 @@ def build_op(op, pool, tables, use_knobs=True):
         if sm:
             kw["shuffle_method"] = sm
         return g.transform(fn, **kw)
+    if o == "persist":
+        get = PERSIST_GET or dask.get
+        return x.persist(scheduler=get, fuse=op.get("fuse", True))
+    if o == "delayed_roundtrip":
+        parts = x.to_delayed(optimize_graph=op.get("optimize_graph", True))
+        kw = {}
+        if op.get("with_meta", True):
+            kw["meta"] = x._meta
+        if op.get("with_divisions", True) and x.known_divisions:
+            kw["divisions"] = x.divisions
+        return dx.from_delayed(parts, **kw)
+    if o == "legacy_roundtrip":
+        return dx.from_legacy_dataframe(x.to_legacy_dataframe())
     raise ValueError("unknown op %r" % o)
+
+
+PERSIST_GET = None  # set by profiles so that persist() runs on the simulated scheduler
 
 
 def build_expr_binop(fn, a, b):
@@ -605,6 +621,8 @@ FAMILIES = (
     "groupby",
     "groupby_udf",
     "value_counts",
+    "cut",
+    "twin",
 )
 
 
@@ -1217,6 +1235,69 @@ class Generator:
             labels = m.labels
         op["knobs"] = self._knobs(["shuffle_method"])
         return self.try_add(op, "open", labels, self.next_id, None)
+
+    def g_cut(self):
+        m = self.pick(self.frames() + self.series())
+        if not m:
+            return None
+        r = self.rng.random()
+        if r < 0.45:
+            op = {"op": "persist", "src": m.id, "fuse": self.rng.random() < 0.7}
+        elif r < 0.8:
+            op = {"op": "delayed_roundtrip", "src": m.id, "with_meta": self.rng.random() < 0.85,
+                  "with_divisions": self.rng.random() < 0.8, "optimize_graph": self.rng.random() < 0.8}
+        else:
+            op = {"op": "legacy_roundtrip", "src": m.id}
+        return self.try_add(op, m.order, m.labels, self.next_id, m.index_kind)
+
+    _TWIN_PARAMS = {
+        "shift": ("periods", [1, 2, 3, -1]),
+        "diff": ("periods", [1, 2, 3]),
+        "rolling": ("window", [2, 3, 4]),
+        "head": ("n", [1, 2, 3, 5]),
+        "tail": ("n", [1, 2, 3, 5]),
+        "repartition": ("npartitions", [1, 2, 3, 5, 8]),
+        "cum": ("fn", ["cumsum", "cummax", "cummin"]),
+        "shuffle": ("npartitions", [2, 3, 5, 9]),
+        "fillna": ("value", [0, 1, 2, 3]),
+    }
+
+    def g_twin(self):
+        """Clone an earlier single-source op changing exactly one parameter and
+        put original and clone into one graph (binop / concat): key prefixes that
+        ignore a distinguishing operand collide there."""
+        cands = [op for op in self.recipe["ops"] if op["op"] in self._TWIN_PARAMS or op["op"] in ("series_map", "map_partitions")]
+        cands = [op for op in cands if op["id"] in self.members]
+        if not cands:
+            return None
+        op = self.rng.choice(cands)
+        m = self.members[op["id"]]
+        clone = {k: v for k, v in op.items() if k != "id"}
+        if op["op"] == "series_map":
+            if "value" not in op:
+                return None
+            clone["value"] = op["value"] + 1
+        elif op["op"] == "map_partitions":
+            clone["kwargs"] = {"c": op["kwargs"]["c"] + 1}
+        else:
+            key, space = self._TWIN_PARAMS[op["op"]]
+            alt = [v for v in space if v != op.get(key, 1)]
+            clone[key] = self.rng.choice(alt)
+        m2 = self.try_add(clone, m.order, m.labels, m.root if op["op"] not in ("head", "tail", "shuffle") else self.next_id, m.index_kind)
+        if m2 is None:
+            return None
+        numeric = all(k in NUMERIC for k in m.cols.values())
+        if m.kind == "series" and m2.kind == "series" and numeric and m.order == "defined" and op["op"] not in ("head", "tail", "repartition", "shuffle"):
+            return self.try_add({"op": "binop", "src": [m.id, m2.id], "fn": self.rng.choice(["add", "sub"])}, m.order, m.labels, m.root, m.index_kind)
+        if m.kind == "frame" and m2.kind == "frame" and list(m.cols) == list(m2.cols):
+            order = "defined" if m.order == "defined" and m2.order == "defined" else "open"
+            labels = "defined" if m.labels == "defined" and m2.labels == "defined" else "open"
+            return self.try_add({"op": "concat", "src": [m.id, m2.id], "axis": 0}, order, labels, self.next_id, None)
+        if m.kind == "series" and m2.kind == "series":
+            order = "defined" if m.order == "defined" and m2.order == "defined" else "open"
+            labels = "defined" if m.labels == "defined" and m2.labels == "defined" else "open"
+            return self.try_add({"op": "concat", "src": [m.id, m2.id], "axis": 0}, order, labels, self.next_id, None)
+        return m2
 
     # -- driver ---------------------------------------------------------------
     def generate(self, n_sources=None, n_targets=None):
